@@ -44,7 +44,7 @@ def canon_subst(root, is_match, value_canon):
   def go(x):
     if isinstance(x, config_lib.Buildable) and is_match(x):
       return ("VALUE",)
-    if not daglish.is_memoizable(x) or isinstance(x, type) or callable(x) and not isinstance(
+    if not common.own_memoizable(x) or isinstance(x, type) or callable(x) and not isinstance(
         x, config_lib.Buildable):
       return ("leaf", repr(x))
     if id(x) in seen:
@@ -229,7 +229,7 @@ def canon_marked(root, value, deep, original_buildable_ids):
       return ("VALUE",)
     if deep and not isinstance(value, (config_lib.Buildable, list)) and x == value and type(x) is type(value):
       return ("VALUE",)
-    if not daglish.is_memoizable(x) or isinstance(x, type) or callable(x) and not isinstance(
+    if not common.own_memoizable(x) or isinstance(x, type) or callable(x) and not isinstance(
         x, config_lib.Buildable):
       return ("leaf", repr(x))
     if id(x) in seen:
